@@ -3,7 +3,8 @@ from ._common import STD_TRUST
 PROP = dict(
     level='proof',
     regen=['crctable', 'consts', 'integconsts', 'decapiconsts'],
-    theorems=['Fit.C07.C07_decode_from_clean', 'Fit.C07.C07_witness_peek_past'],
+    theorems=['Fit.C07.C07_decode_from_clean', 'Fit.C07.C07_boundary_clean', 'Fit.C07.C07_history_indep_partial',
+              'Fit.C07.C07_rejected_everywhere_partial', 'Fit.C07.C07_full_fails', 'Fit.C07.C07_witness_peek_past'],
     families=[dict(name='dechist', prop=True), dict(name='decapi')],
     trusted_base=STD_TRUST + [],
     assumptions=[],
